@@ -6,7 +6,7 @@
 export GOFLAGS=-mod=mod GOPROXY=off GOSUMDB=off GOTOOLCHAIN=local
 REPO="${VERIF_REPO:-/repo}"
 OUT="$(mktemp -d)"
-(cd "$REPO" && timeout -s QUIT -k 10 600 go test -mod=mod -json -vet=off -count=1 -timeout 8m ./... > "$OUT/run0.json" 2>/dev/null)
+(cd "$REPO" && flock /tmp/siot-test-ports.lock timeout -s QUIT -k 10 600 go test -mod=mod -json -vet=off -count=1 -timeout 8m ./... > "$OUT/run0.json" 2>/dev/null)
 for i in 1 2 3; do
   PK=$(python3 - "$OUT" <<'PY'
 import json,sys,glob
@@ -23,7 +23,7 @@ print(' '.join(sorted({t.split('::')[0] for t in base if res.get(t)!='pass'})))
 PY
 )
   [ -z "$PK" ] && break
-  for p in $PK; do (cd "$REPO" && timeout -s QUIT -k 10 600 go test -mod=mod -json -vet=off -count=1 -timeout 8m "$p" >> "$OUT/run$i.json" 2>/dev/null); done
+  for p in $PK; do (cd "$REPO" && flock /tmp/siot-test-ports.lock timeout -s QUIT -k 10 600 go test -mod=mod -json -vet=off -count=1 -timeout 8m "$p" >> "$OUT/run$i.json" 2>/dev/null); done
 done
 python3 - "$OUT" <<'PY'
 import json,sys,glob
